@@ -241,7 +241,8 @@ Definition conv_int (a : ajson) : option (option Z) :=
 Definition conv_float (a : ajson) : option (option N) :=
   match a with
   | ANull => Some None
-  | AInt z => match z2f z with Some b => Some (Some b) | None => None end
+  (* strconv.ParseFloat: a finite double or ErrRange, never a non-finite value without error *)
+  | AInt z => match z2f z with Some b => if f_finite b then Some (Some b) else None | None => None end
   | AFloat b => if f_finite b then Some (Some b) else None
   | _ => None
   end.
@@ -444,37 +445,31 @@ Inductive value :=
 
 Definition jstrs (l : list string) : json := JArr (map JStr l).
 
+Definition map_opt {A B} (f : A -> option B) : list A -> option (list B) :=
+  fix go (l : list A) : option (list B) :=
+    match l with
+    | [] => Some []
+    | x :: r => match f x with
+                | None => None
+                | Some y => match go r with Some ys => Some (y :: ys) | None => None end
+                end
+    end.
+
 (* ToJSONRaw on a tree (no sharing, hence no cycle); None = error (json.Marshal rejects
-   non-finite floats) *)
+   non-finite floats; the first error aborts) *)
 Fixpoint to_json (T : json_tags) (v : value) : option json :=
-  let fix items (l : list value) : option (list json) :=
-      match l with
-      | [] => Some []
-      | x :: r => match to_json T x with
-                  | None => None
-                  | Some j => match items r with Some js => Some (j :: js) | None => None end
-                  end
-      end in
-  let fix entries (l : list (string * value)) : option (list (string * json)) :=
-      match l with
-      | [] => Some []
-      | (k, x) :: r => match to_json T x with
-                       | None => None
-                       | Some j => match entries r with Some js => Some ((k, j) :: js) | None => None end
-                       end
-      end in
   match v with
   | VInt z => Some (JObj [(ek_t T, JInt (e_int T)); (ek_v T, JInt z)])
   | VFloat b => if f_finite b then Some (JObj [(ek_t T, JInt (e_float T)); (ek_v T, JFloat b)]) else None
   | VStr s => Some (JObj [(ek_t T, JInt (e_str T)); (ek_v T, JStr s)])
   | VNull => Some (JObj [(ek_t T, JInt (e_null T))])
   | VArr l =>
-    match items l with
+    match map_opt (to_json T) l with
     | None => None
     | Some js => Some (JObj [(ek_t T, JInt (e_array T)); (ek_v T, JObj [(ek_list T, JArr js)])])
     end
   | VDict l =>
-    match entries l with
+    match map_opt (fun kv : string * value => let (k, x) := kv in match to_json T x with Some j => Some (k, j) | None => None end) l with
     | None => None
     | Some js => Some (JObj [(ek_t T, JInt (e_dict T)); (ek_v T, JObj [(ek_dict T, JObj js)])])
     end
@@ -485,7 +480,7 @@ Fixpoint to_json (T : json_tags) (v : value) : option json :=
   | VComputed e None =>
     Some (JObj [(ek_t T, JInt (e_computed T)); (ek_v T, JObj [(ek_cexpr T, JStr e)])])
   | VComputed e (Some l) =>
-    match entries l with
+    match map_opt (fun kv : string * value => let (k, x) := kv in match to_json T x with Some j => Some (k, j) | None => None end) l with
     | None => None
     | Some js => Some (JObj [(ek_t T, JInt (e_computed T));
                              (ek_v T, JObj [(ek_cexpr T, JStr e); (ek_cattrs T, JObj js)])])
@@ -494,14 +489,11 @@ Fixpoint to_json (T : json_tags) (v : value) : option json :=
   | VNObj n => Some (JObj [(ek_t T, JInt (e_nobj T)); (ek_v T, JObj [(ek_oname T, JStr n)])])
   end.
 
-Fixpoint to_json_entries (T : json_tags) (l : list (string * value)) : option (list (string * json)) :=
-  match l with
-  | [] => Some []
-  | (k, x) :: r => match to_json T x with
-                   | None => None
-                   | Some j => match to_json_entries T r with Some js => Some ((k, j) :: js) | None => None end
-                   end
-  end.
+Definition to_json_items (T : json_tags) (l : list value) : option (list json) :=
+  map_opt (to_json T) l.
+
+Definition to_json_entries (T : json_tags) (l : list (string * value)) : option (list (string * json)) :=
+  map_opt (fun kv : string * value => let (k, x) := kv in match to_json T x with Some j => Some (k, j) | None => None end) l.
 
 (* ValueMap.ToJSON *)
 Definition to_json_map (T : json_tags) (l : list (string * value)) : option json :=
@@ -608,8 +600,27 @@ Definition tags_distinct (T : json_tags) : bool :=
   distinctZ [d_int T; d_float T; d_str T; d_null T; d_computed T; d_array T; d_dict T; d_func T;
              d_native T; d_nobj T].
 
+Definition kind_tag (T : json_tags) (k : kind) : Z :=
+  match k with
+  | KInt => d_int T | KFloat => d_float T | KStr => d_str T | KNull => d_null T
+  | KComputed => d_computed T | KArray => d_array T | KDict => d_dict T | KFunc => d_func T
+  | KNative => d_native T | KNObj => d_nobj T
+  end.
+
+Definition kind_eqb (a b : kind) : bool :=
+  match a, b with
+  | KInt, KInt | KFloat, KFloat | KStr, KStr | KNull, KNull | KComputed, KComputed
+  | KArray, KArray | KDict, KDict | KFunc, KFunc | KNative, KNative | KNObj, KNObj => true
+  | _, _ => false
+  end.
+
+(* every VMType* constant reaches its own case of the switch *)
+Definition dispatch_ok (T : json_tags) : bool :=
+  forallb (fun k => match dispatch T (kind_tag T k) with Some k' => kind_eqb k k' | None => false end)
+          [KInt; KFloat; KStr; KNull; KComputed; KArray; KDict; KFunc; KNative; KNObj].
+
 Definition tags_ok (T : json_tags) : bool :=
-  tags_distinct T &&
+  tags_distinct T && dispatch_ok T &&
   (e_int T =? d_int T)%Z && (e_float T =? d_float T)%Z && (e_str T =? d_str T)%Z &&
   (e_null T =? d_null T)%Z && (e_computed T =? d_computed T)%Z && (e_array T =? d_array T)%Z &&
   (e_dict T =? d_dict T)%Z && (e_func T =? d_func T)%Z && (e_native T =? d_native T)%Z &&
@@ -720,18 +731,18 @@ Fixpoint r_to_json (T : json_tags) (r : rvalue) : outcome jres :=
   match tag_of r with
   | None => Done JErr
   | Some t =>
-    if (t =? d_int T)%Z then Done JOk
-    else if (t =? d_float T)%Z then Done (match r with RFloat _ b => if f_finite b then JOk else JErr | _ => JOk end)
-    else if (t =? d_str T)%Z then Done JOk
-    else if (t =? d_null T)%Z then Done JOk
-    else if (t =? d_computed T)%Z then
+    match dispatch T t with
+    | Some KInt | Some KStr | Some KNull => Done JOk
+    | Some KFloat => Done (match r with RFloat _ b => if f_finite b then JOk else JErr | _ => JOk end)
+    | Some KComputed =>
       match r with RComputed _ _ None => Done JOk | RComputed _ _ (Some l) => alle l | _ => Trap end
-    else if (t =? d_array T)%Z then match r with RArr _ l => all l | _ => Trap end
-    else if (t =? d_dict T)%Z then match r with RDict _ l => alle l | _ => Trap end
-    else if (t =? d_func T)%Z then match r with RFunc _ _ _ _ => Done JOk | _ => Trap end
-    else if (t =? d_native T)%Z then match r with RNative _ _ => Done JOk | _ => Trap end
-    else if (t =? d_nobj T)%Z then match r with RNObj _ _ => Done JOk | _ => Trap end
-    else Done JOk
+    | Some KArray => match r with RArr _ l => all l | _ => Trap end
+    | Some KDict => match r with RDict _ l => alle l | _ => Trap end
+    | Some KFunc => match r with RFunc _ _ _ _ => Done JOk | _ => Trap end
+    | Some KNative => match r with RNative _ _ => Done JOk | _ => Trap end
+    | Some KNObj => match r with RNObj _ _ => Done JOk | _ => Trap end
+    | None => Done JOk
+    end
   end.
 
 (* ValueEqual(a, b, _): nil-tolerant; same tag => array/dict/computed/native assert BOTH
@@ -755,27 +766,30 @@ Fixpoint r_equal (T : json_tags) (a b : rvalue) {struct a} : outcome bool :=
   | None, _ | _, None => Done false
   | Some t, Some u =>
     if negb (t =? u)%Z then Done false
-    else if (t =? d_array T)%Z then
-      match a, b with
-      | RArr _ l, RArr _ m => if (length l =? length m)%nat then alll l m else Done false
-      | _, _ => Trap
+    else
+      match dispatch T t with
+      | Some KArray =>
+        match a, b with
+        | RArr _ l, RArr _ m => if (length l =? length m)%nat then alll l m else Done false
+        | _, _ => Trap
+        end
+      | Some KDict =>
+        match a, b with
+        | RDict _ l, RDict _ m => if (length l =? length m)%nat then sub l m else Done false
+        | _, _ => Trap
+        end
+      | Some KComputed =>
+        match a, b with
+        | RComputed _ e _, RComputed _ e' _ => Done (String.eqb e e')
+        | _, _ => Trap
+        end
+      | Some KNative =>
+        match a, b with
+        | RNative _ n, RNative _ n' => Done (String.eqb n n')
+        | _, _ => Trap
+        end
+      | _ => Done (req a b)
       end
-    else if (t =? d_dict T)%Z then
-      match a, b with
-      | RDict _ l, RDict _ m => if (length l =? length m)%nat then sub l m else Done false
-      | _, _ => Trap
-      end
-    else if (t =? d_computed T)%Z then
-      match a, b with
-      | RComputed _ e _, RComputed _ e' _ => Done (String.eqb e e')
-      | _, _ => Trap
-      end
-    else if (t =? d_native T)%Z then
-      match a, b with
-      | RNative _ n, RNative _ n' => Done (String.eqb n n')
-      | _, _ => Trap
-      end
-    else Done (req a b)
   end.
 
 (* ------------------------------------------------------------------ heap graphs *)
